@@ -72,6 +72,29 @@ pub fn quiescence_pair(p: &Pos) -> Result<(i32, i32), String> {
     Ok((got, rs.quiesce(p)))
 }
 
+/// the engine's horizon valuation of `p` on the window (alpha, beta)
+pub fn quiescence_window(p: &Pos, alpha: i32, beta: i32) -> Result<i32, String> {
+    thread_local! {
+        static QW: std::cell::RefCell<Option<verif::Quiescence>> = std::cell::RefCell::new(None);
+    }
+    let b = board_of(p);
+    QW.with(|q| {
+        let mut q = q.borrow_mut();
+        let mut inst = q.take().unwrap_or_else(verif::Quiescence::new);
+        let r = guarded(move || {
+            let v = inst.value_window(b, alpha, beta);
+            (v, inst)
+        });
+        match r {
+            Ok((v, inst)) => {
+                *q = Some(inst);
+                Ok(v)
+            }
+            Err(e) => Err(e),
+        }
+    })
+}
+
 #[derive(Debug, Clone, Default)]
 pub struct SearchOut {
     pub score: Option<Score>,
@@ -711,6 +734,8 @@ pub fn run_c08(tier: Tier) -> i32 {
     let t0 = Instant::now();
     let qs_n = AtomicU64::new(0);
     let qs_resolved = AtomicU64::new(0);
+    let qs_windows = AtomicU64::new(0);
+    let qs_big = AtomicU64::new(0);
     let qs_judge = |p: &Pos| {
         if !p.has_legal_move() {
             return; // the horizon test of the search hands move-less positions to the terminal valuation
@@ -730,6 +755,34 @@ pub fn run_c08(tier: Tier) -> i32 {
         if got != want {
             let promo = p.legal().iter().any(|m| m.promo != 0);
             rep.report(format!("horizon_value_differs:{}", if promo { "mover_can_promote" } else { "captures_only" }), json!({"kind": "quiescence", "fen": p.to_fen(), "detail": {"engine": got, "reference": want, "stand_pat": eval_hook(p, true)}}));
+            return;
+        }
+        // the same valuation on NARROW windows, as the inner nodes of a search ask for it (a full
+        // window never prunes): the alpha-beta contract — inside the window the exact value, outside it
+        // a bound on the right side — on the window just around the value and on one just around
+        // the stand-pat value. Where captures decide (value != stand pat) every position, else a tenth.
+        let sp = eval_hook(p, true);
+        if want - sp > 1100 && !p.legal().iter().any(|m| m.promo != 0) {
+            qs_big.fetch_add(1, Ordering::Relaxed);
+        }
+        if want != sp || qs_n.load(Ordering::Relaxed) % 10 == 0 {
+            for (alpha, beta) in [(want - 1, want + 1), (sp - 1, sp + 1), (want - 1, i32::MAX / 2)] {
+                qs_windows.fetch_add(1, Ordering::Relaxed);
+                match quiescence_window(p, alpha, beta) {
+                    Ok(r) => {
+                        let ok = if want <= alpha { r <= alpha } else if want >= beta { r >= beta } else { r == want };
+                        if !ok {
+                            let promo = p.legal().iter().any(|m| m.promo != 0);
+                            rep.report(format!("horizon_value_on_a_narrow_window_breaks_the_alpha_beta_contract:{}", if promo { "mover_can_promote" } else { "captures_only" }), json!({"kind": "quiescence_window", "fen": p.to_fen(), "detail": {"alpha": alpha, "beta": beta, "engine_on_this_window": r, "exact_value": want, "stand_pat": sp}}));
+                            break;
+                        }
+                    }
+                    Err(e) => {
+                        rep.report(format!("horizon_valuation_panics:{}", short(&e)), json!({"kind": "quiescence_window", "fen": p.to_fen(), "detail": {"alpha": alpha, "beta": beta, "panic": e}}));
+                        break;
+                    }
+                }
+            }
         }
     };
     {
@@ -744,6 +797,7 @@ pub fn run_c08(tier: Tier) -> i32 {
         list.push((Box::new(EpFam::quick()), if tier == Tier::Quick { 31 } else { 3 }));
         list.push((Box::new(Pawn7), if tier == Tier::Quick { 8_009 } else { 61 }));
         list.push((Box::new(Stage9), (Stage9.len() / if tier == Tier::Quick { 60_000 } else { 3_000_000 }) | 1));
+        list.push((Box::new(StageFlip), (StageFlip.len() / if tier == Tier::Quick { 1_500_000 } else { 150_000_000 }) | 1));
         for (f, stride) in list.iter() {
             let t1 = Instant::now();
             let sf = Strided(f.as_ref(), *stride);
@@ -755,7 +809,7 @@ pub fn run_c08(tier: Tier) -> i32 {
         let (s, _, _) = reach(&roots(), if tier == Tier::Quick { 1 } else { 3 }, &|p, _| qs_judge(p));
         fams.push(json!({"family": "horizon valuation on REACH", "states": s, "secs": t1.elapsed().as_secs_f64()}));
     }
-    fams.push(json!({"family": "horizon valuation total", "positions": qs_n.load(Ordering::Relaxed), "positions_where_a_capture_or_promotion_beats_stand_pat": qs_resolved.load(Ordering::Relaxed), "secs": t0.elapsed().as_secs_f64()}));
+    fams.push(json!({"family": "horizon valuation total", "positions": qs_n.load(Ordering::Relaxed), "positions_where_a_capture_or_promotion_beats_stand_pat": qs_resolved.load(Ordering::Relaxed), "narrow_window_valuations": qs_windows.load(Ordering::Relaxed), "positions_where_captures_alone_gain_more_than_a_queen_and_two_pawns": qs_big.load(Ordering::Relaxed), "secs": t0.elapsed().as_secs_f64()}));
     if qs_resolved.load(Ordering::Relaxed) == 0 {
         rep.machinery("vacuous: horizon valuation never differed from stand-pat");
     }
@@ -2028,6 +2082,19 @@ pub fn replay(id: &str, case: &Value) -> i32 {
                 if score != *b {
                     rep.report("value_depends_on_the_search_window".to_string(), json!({"kind": "window", "fen": p.to_fen(), "depth": depth}));
                 }
+            }
+        }
+        ("C08", "quiescence_window") => {
+            let (alpha, beta) = (case["detail"]["alpha"].as_i64().unwrap_or(0) as i32, case["detail"]["beta"].as_i64().unwrap_or(0) as i32);
+            match (quiescence_pair(&p), quiescence_window(&p, alpha, beta)) {
+                (Ok((full, want)), Ok(r)) => {
+                    println!("horizon valuation of {}: reference {}, engine on the full window {}, engine on the window ({}, {}): {}", p.to_fen(), want, full, alpha, beta, r);
+                    let ok = if want <= alpha { r <= alpha } else if want >= beta { r >= beta } else { r == want };
+                    if !ok {
+                        rep.report("horizon_value_on_a_narrow_window_breaks_the_alpha_beta_contract".to_string(), json!({"kind": "quiescence_window", "fen": p.to_fen(), "detail": {"alpha": alpha, "beta": beta}}));
+                    }
+                }
+                (Err(e), _) | (_, Err(e)) => rep.report("horizon_valuation_panics".to_string(), json!({"kind": "quiescence_window", "fen": p.to_fen(), "detail": {"panic": e}})),
             }
         }
         ("C08", "quiescence") => {
